@@ -45,6 +45,9 @@ def gen_case(rng):
         call["close_after"] = rng.randint(0, min(n, 12))
         call["close_other"] = rng.random() < 0.5          # the generator is closed by another thread than the caller's
         call["at_once"] = call["close_other"] and rng.random() < 0.5     # ... and the object is reused as soon as close() has returned
+        # the application runs with warnings turned into errors (-W error): joblib's "tasks were cancelled" warning
+        # then leaves close() as an exception -- after the abort, which must have happened all the same
+        call["warn_error"] = (not call["close_other"]) and rng.random() < 0.3
         if call["close_other"] and rng.random() < 0.5 and n > 3:
             # ... while the input is in the middle of producing item j for a completion callback (a slow input iterable)
             call["close_at_pull"] = rng.randint(2, min(n - 1, 12))
@@ -137,7 +140,17 @@ def consumer(w, s, p, c, gen, rec):
             s.sleep(0.01)
         w.probes["closed_by_foreign_thread"] += 1
     else:
-        gen.close()
+        if call.get("warn_error"):
+            import warnings
+            warnings.simplefilter("error", UserWarning)
+            try:
+                gen.close()
+            except UserWarning:
+                w.probes["early_exit_warning_raised_as_error"] += 1
+            finally:
+                warnings.simplefilter("ignore")
+        else:
+            gen.close()
     rec["closed"] = True
     rec["outcome"] = {"kind": "closed", "t": s.now}
 
